@@ -32,12 +32,16 @@ RULE = ("ser: random object graph over scalars/list/tuple/set/deque/dict/enum/da
         "(age-1us, age, age+1us), every status, activated 0/1/2, parent/child links, action references; e2e: program built "
         "from flow templates (start/await/activate/when/match groups, event/flow/action references, variables holding sets "
         "and nested containers) + random history; every cut point is enumerated for restore and for ageing. "
+        "value domain (all kinds): 18% of the scalars are drawn from non-finite/extreme floats, -0.0, ints beyond 2^53/2^64/the double range/2048 bits/4300 digits, "
+        "text-layer strings (NaN/Infinity/null as strings, U+2028, NUL, non-BMP, lone surrogates, 3000+ chars), float dict keys, empty containers, chains 20-100 deep (ser) "
+        "and while-loop nesting 30-200 deep (e2e); they enter through literals, arithmetic, incoming event payloads, action results, flow parameters and the API; "
+        "every ser value goes through the repo's state_to_json/json_to_state inside a real State. "
         "non-trivial = ser: graph has a container of depth>=2 or a shared object; cleanup: at least one record removed and one "
         "kept; e2e: history produced at least two non-empty outputs and the state at some cut held >= 3 flow instances.")
 TRUSTED_BASE = [
     "translator harness/translate/c11.py (class/field/enum tables by introspection of the tree under test, clean-up age by AST path)",
     "correspondence harness harness/props/C11.py + harness/impl/c11pv.py + Lean driver Drive/C11.lean (codecs on both sides)",
-    "CPython json module (modelled as identity on JSON values + key stringification), dataclass constructors, pydantic (RailsConfig.model_validate not exercised)",
+    "CPython json module (modelled as identity on JSON values + key stringification; allow_nan and the three non-standard float tokens are modelled and tied by the tokens case), dataclass constructors, pydantic (RailsConfig.model_validate not exercised)",
     "the behavioural continuation claim (T3) is NOT carried by a theorem: it is tested on the real interpreter at every cut point of the generated histories",
 ]
 ASSUMPTIONS = [
@@ -404,7 +408,7 @@ def g_program(rng, want=None):
             if w < 0.06 and "deep-loop" not in feats:
                 # nesting as deep as a loop makes it (no literal is that deep): lists or dicts, 30..120 levels
                 v, i = newval(), newvar()
-                k = rng.randrange(30, 121)
+                k = rng.randrange(30, 101)
                 wrap = rng.choice(["[{v}]", '{{"k": {v}}}', '[0, {{"in": {v}}}]']).format(v=v)
                 lines += [f"  {v} = [1.5]", f"  {i} = 0", f"  while {i} < {k}", f"    {v} = {wrap}", f"    {i} = {i} + 1"]
                 feats.add("deep-loop")
@@ -1042,6 +1046,10 @@ def _state_facts(state):
     views = (type({}.keys()), type({}.values()), type({}.items()), type([].append), bytes)
     seen = set()
     stack = [fs.context for fs in state.flow_states.values()] + [state.context]
+    # a value also lives in the state through the action it was reported by / sent to and through the event lists
+    stack += [x for a in state.actions.values() for x in (a.context, a.start_event_arguments)]
+    stack += [fs.arguments for fs in state.flow_states.values()]
+    stack += list(state.last_events) + list(state.internal_events) + list(state.outgoing_events)
     n = 0
     while stack and n < 50000:
         x = stack.pop()
